@@ -257,6 +257,8 @@ def check(facts, rep, tier, cfg):
                                                               "sent before closing is dropped")
         else:
             rep.ok("C08.R9", "wind-down-dispatches", where, "remaining messages are handed to the dispatcher")
+        for okd, wd_, dd in dispatch_not_cut_short(facts, crate):
+            (rep.ok if okd else rep.bad)("C08.R9", "wind-down-dispatch-survives-errors", wd_, dd)
     # ---- entry: select arms and flag values
     entry = None
     idxc = Inter(facts).call_index()
@@ -463,6 +465,63 @@ def teardown_outcomes(facts, crate):
         outs = eng.outcomes(wd, tuple((p, val) for p in flag_params))
         results[val] = [ef for _, ef in outs if "diverges" not in ef]
     return wd, results
+
+
+def dispatch_not_cut_short(facts, crate):
+    """In the wind-down, the loop that hands the messages still buffered in the source to the dispatcher must not be left because ONE
+    message failed to dispatch (a Datagram / Connect / Bind that meets a closed application queue returns Err): the frames behind it
+    (data and Finish of live streams) would be dropped and the readers see end-of-stream early. Leaving on the dispatcher's
+    Ok(true) (the peer's Close: nothing follows) is fine. Returns [(ok, where, detail)] per dispatcher call site of the wind-down."""
+    wd, _ = None, None
+    for b in crate.bodies:
+        for bi, t in b.calls():
+            c = callee(t)
+            if c and c["name"] == "drain" and "HashMap" in c["def"] and "FlowSlot" in c["path"]:
+                wd = logical_root(facts, b)
+    pm = None
+    for b in crate.bodies:
+        if b.kind == "Closure" and any("ws::Message" in b.locals[i]["s"] for i in range(len(b.locals))) and \
+                any(callee(t) and callee(t)["name"] == "process_frame" for _, t in b.calls()):
+            pm = b
+    if wd is None or pm is None:
+        return []
+    from an import CallIndex
+    root = logical_root(facts, pm)
+    dname = root.path.split("::")[-1]
+    wdp = set(x.dp for x in nested_bodies(facts, wd))
+    out = []
+    for cb, cbi, ct in CallIndex(facts).callers.get(root.dp, []):
+        if cb.dp not in wdp:
+            continue
+        tr = Tracer(facts, cb)
+        where = "%s (%s)" % (loc_str(ct["loc"]), cb.path)
+        bad = None
+        for gb in range(len(cb.blocks)):
+            if cb.term(gb)["k"] != "SwitchInt" or gb not in cb.reachable_from(cbi):
+                continue
+            g = guard_at(facts, cb, tr, gb)
+            if g is None:
+                continue
+            if not any(x.kind == "call" and x[6] == dname for x in walk(g.pred)):
+                continue
+            for succ, v in g.edges:
+                failing = False
+                if g.kind == "discr" and v in ("Err", "Break"):
+                    failing = True
+                elif g.kind == "bool":
+                    p = strip(g.pred)
+                    if p.kind == "call" and p[6] in ("is_err", "is_ok") and v == (p[6] == "is_err"):
+                        failing = True
+                if failing and cbi not in cb.reachable_from(succ) and succ != cbi:
+                    bad = gb
+        if bad is not None:
+            out.append((False, "%s (%s)" % (loc_str(cb.term(bad)["loc"]), cb.path),
+                        "the wind-down stops dispatching the messages still buffered in the source as soon as ONE of them fails to dispatch "
+                        "(e.g. a Datagram or Connect that meets an already closed application queue): the Push / Finish frames behind it are "
+                        "dropped and the readers of live streams see end-of-stream before the data the peer wrote"))
+        else:
+            out.append((True, where, "a dispatch error does not end the loop over the buffered messages"))
+    return out
 
 
 def lt(a, b):
